@@ -55,7 +55,9 @@ public:
     {
         std::unique_lock<std::mutex> lock(mutex_);
         size_t res = ++value_;
-        cv_.notify_one();
+        // waiters may need different amounts: the one woken by notify_one()
+        // might not be able to proceed while another one could.
+        cv_.notify_all();
         return res;
     }
 
